@@ -1,7 +1,7 @@
-\* every command shape x every (book, log) problem placement over files of <= 2 records x sink ok/failing
+\* every command shape x every (book, log) problem placement over files of <= 3 records x sink ok/failing
 CONSTANTS
   Cmds <- AllCmds
-  MaxRecs = 2
+  MaxRecs = 3
   Impl = "repaired"
   Dump = TRUE
 INIT Init
